@@ -531,35 +531,55 @@ func (sf *StatusFlow) overwrites(v ssa.Value, fn *ssa.Function, seen map[ssa.Val
 	return out
 }
 
-// everyPathStores: conservative — the Status field of alloc x is stored in a
-// block that dominates every use of x as a returned value. Approximated by
-// "some store is in a block dominating all Return blocks that can see x".
+// everyPathStores: forward must-analysis — on every path from the allocation
+// to a return, the Status field of alloc x has been stored.
 func (sf *StatusFlow) everyPathStores(x *ssa.Alloc) bool {
-	var storeBlocks []*ssa.BasicBlock
+	stores := map[*ssa.BasicBlock]bool{}
 	for _, ref := range *x.Referrers() {
 		if fa, ok := ref.(*ssa.FieldAddr); ok && fa.Field == sf.statusIdx {
 			for _, rr := range *fa.Referrers() {
 				if st, ok := rr.(*ssa.Store); ok && st.Addr == fa {
-					storeBlocks = append(storeBlocks, st.Block())
+					stores[st.Block()] = true
 				}
 			}
 		}
 	}
 	fn := x.Parent()
+	out := map[*ssa.BasicBlock]bool{}
+	for _, b := range fn.Blocks {
+		out[b] = true // optimistic start, greatest fixpoint
+	}
+	changed := true
+	for changed {
+		changed = false
+		for _, b := range fn.Blocks {
+			in := len(b.Preds) > 0
+			for _, p := range b.Preds {
+				if !out[p] {
+					in = false
+				}
+			}
+			if b == x.Block() {
+				in = false // nothing stored before the allocation itself
+			}
+			o := in || stores[b]
+			if o != out[b] {
+				out[b] = o
+				changed = true
+			}
+		}
+	}
 	for _, b := range fn.Blocks {
 		if _, ok := b.Instrs[len(b.Instrs)-1].(*ssa.Return); !ok {
+			continue
+		}
+		if b == fn.Recover {
 			continue
 		}
 		if !x.Block().Dominates(b) {
 			continue
 		}
-		ok := false
-		for _, sb := range storeBlocks {
-			if sb.Dominates(b) {
-				ok = true
-			}
-		}
-		if !ok {
+		if !out[b] {
 			return false
 		}
 	}
